@@ -1,6 +1,7 @@
 package main
 
 import (
+	"context"
 	"fmt"
 	"os"
 	"math/big"
@@ -8,6 +9,7 @@ import (
 	"go/token"
 	"go/types"
 	"sort"
+	"strconv"
 	"strings"
 
 	"golang.org/x/tools/go/ssa"
@@ -171,7 +173,13 @@ func (e *Exec) builtin(s *State, site ssa.Instruction, cc *ssa.CallCommon, res s
 		st := cells(et)
 		n := c.I("(+ %s %s)", sl[2], ad[2])
 		inplace := c.B("(<= %s %s)", n, sl[3])
-		c.caseConds = append(c.caseConds, caseCond{term: inplace, at: len(c.lines), visit: c.cur, lenTerm: sl[2]})
+		doIn, doGrow := inplace != "false", inplace != "true"
+		if doIn && doGrow && e.root.spec != nil && e.root.spec.PrunePaths {
+			doIn, doGrow = e.feasible2(s, inplace, c.not(inplace))
+		}
+		if doIn && doGrow {
+			c.caseConds = append(c.caseConds, caseCond{term: inplace, at: len(c.lines), visit: c.cur, lenTerm: sl[2]})
+		}
 		// appended elements: a variadic call passes a slice of a small array of
 		// statically known length; those are written cell by cell (no quantifier)
 		staticN := -1
@@ -189,17 +197,28 @@ func (e *Exec) builtin(s *State, site ssa.Instruction, cc *ssa.CallCommon, res s
 		// in-place branch
 		s1 := s.clone()
 		s1.pc = c.and(s.pc, inplace)
+		if !doIn {
+			s1.pc = "false"
+		}
 		dbase := c.I("(+ %s (* %s %d))", sl[1], sl[2], st)
 		ncells := c.I("(* %s %d)", ad[2], st)
-		e.frameCheck(s1, site, sl[0], dbase, c.I("(+ %s %s)", dbase, ncells))
-		if staticN >= 0 {
-			for i, ev := range elems {
-				e.store(s1, nil, sl[0], c.I("(+ %s %d)", dbase, i*st), et, ev)
+		if doIn {
+			e.frameCheck(s1, site, sl[0], dbase, c.I("(+ %s %s)", dbase, ncells))
+			if staticN >= 0 {
+				for i, ev := range elems {
+					e.store(s1, nil, sl[0], c.I("(+ %s %d)", dbase, i*st), et, ev)
+				}
+			} else {
+				e.copyRange(s1, et, sl[0], dbase, ad[0], ad[1], ncells)
 			}
-		} else {
-			e.copyRange(s1, et, sl[0], dbase, ad[0], ad[1], ncells)
 		}
 		r1 := Val{sl[0], sl[1], n, sl[3]}
+		if !doGrow {
+			*s = *s1
+			s.pc = c.and(s.pc, "true")
+			e.setRes(s, res, r1)
+			return
+		}
 		// growth branch: fresh object, capacity unconstrained above the new length
 		s2 := s.clone()
 		s2.pc = c.and(s.pc, c.not(inplace))
@@ -216,6 +235,13 @@ func (e *Exec) builtin(s *State, site ssa.Instruction, cc *ssa.CallCommon, res s
 			e.copyRange(s2, et, nobj, oldCells, ad[0], ad[1], ncells)
 		}
 		r2 := Val{nobj, "0", n, ncap}
+		if !doIn {
+			pc := s.pc
+			*s = *s2
+			s.pc = pc
+			e.setRes(s, res, r2)
+			return
+		}
 		m := e.merge([]edge{{cond: "true", st: s1}, {cond: "true", st: s2}})
 		m.pc = s.pc
 		*s = *m
@@ -921,7 +947,9 @@ func (e *Exec) forcedInline(callee *ssa.Function) bool {
 
 func (e *Exec) unrollFor(b *ssa.BasicBlock) (int, bool) {
 	if e != e.root && e.root.spec != nil && e.root.spec.Unroll > 0 && e.root.forcedInline(e.fn) {
-		return e.root.spec.Unroll, e.root.spec.UnrollComplete // a lemma that executes this callee's body with its own bound
+		if only := e.root.spec.UnrollLoops; len(only) == 0 || only[fmt.Sprintf("%s:%d", e.fn.Name(), e.loopOrd[b])] {
+			return e.root.spec.Unroll, e.root.spec.UnrollComplete // a lemma that executes this callee's body with its own bound
+		}
 	}
 	if ls := e.loopSpec(b); ls != nil {
 		if ls.Unroll > 0 {
@@ -1145,6 +1173,17 @@ func (e *Exec) execRegion(order []*ssa.BasicBlock, incoming map[*ssa.BasicBlock]
 					flow(b, b.Succs[1], c.not(cond), s)
 					s.lane = base
 					e.root.nlanes++
+					continue
+				}
+				if e.root.spec != nil && e.root.spec.PrunePaths {
+					e.root.prunePos = e.p.fset.Position(x.Cond.Pos()).String()
+					f0, f1 := e.feasible2(s, cond, c.not(cond))
+					if f0 {
+						flow(b, b.Succs[0], cond, s)
+					}
+					if f1 {
+						flow(b, b.Succs[1], c.not(cond), s)
+					}
 					continue
 				}
 				flow(b, b.Succs[0], cond, s)
@@ -1435,4 +1474,115 @@ func storedIn(body map[*ssa.BasicBlock]bool, a *ssa.Alloc) bool {
 func endsInReturn(b *ssa.BasicBlock) bool {
 	_, ok := b.Instrs[len(b.Instrs)-1].(*ssa.Return)
 	return ok
+}
+
+// feasible2 decides the two sides of a branch: a side is dropped only when a
+// solver refutes pc && cond. Both queries run concurrently; when one side is
+// refuted the other needs no answer (the state itself is reachable).
+func (e *Exec) feasible2(s *State, cond, ncond string) (bool, bool) {
+	c := e.c
+	if cond == "true" || ncond == "false" {
+		return true, false
+	}
+	if cond == "false" || ncond == "true" {
+		return false, true
+	}
+	if s.pc == "false" {
+		return false, false
+	}
+	g0 := c.B("(not (and %s %s))", s.pc, cond)
+	g1 := c.B("(not (and %s %s))", s.pc, ncond)
+	dir := e.root.pruneDir
+	if dir == "" {
+		dir, _ = os.MkdirTemp("", "rtpverify-prune")
+		e.root.pruneDir = dir
+	}
+	pto := 5
+	if x, err := strconv.Atoi(os.Getenv("VERIF_PRUNE_TO")); err == nil && x > 0 {
+		pto = x
+	}
+	ctx, cancel := context.WithCancel(context.Background())
+	defer cancel()
+	type res struct {
+		side int
+		v    string
+		secs float64
+	}
+	ch := make(chan res, 6)
+	for side, g := range []string{g0, g1} {
+		o := &Obl{ctx: c, at: len(c.lines), hist: s.hist, goal: g}
+		e.root.pruneN++
+		file := fmt.Sprintf("%s/p%d.smt2", dir, e.root.pruneN)
+		os.WriteFile(file, []byte(strings.Replace(o.query(), zeroRowAxioms, zeroRowConst, 1)), 0o644)
+		os.WriteFile(file+".cvc5", []byte(o.query()), 0o644)
+		for _, sv := range []struct {
+			name string
+			seed int
+		}{{"z3-new", 0}, {"z3-new", 7}, {"cvc5", 0}} {
+			go func(side int, file, name string, seed int) {
+				v, _, secs := runSolverCtx(ctx, name, file, pto, seed)
+				ch <- res{side, v, secs}
+			}(side, file, sv.name, sv.seed)
+		}
+		if os.Getenv("VERIF_DEBUG") == "" {
+			defer os.Remove(file)
+			defer os.Remove(file + ".cvc5")
+		}
+	}
+	f := [2]bool{true, true}
+	for k := 0; k < 6; k++ {
+		r := <-ch
+		if os.Getenv("VERIF_DEBUG") != "" {
+			fmt.Fprintf(os.Stderr, "prune %s p%d side %d: %s %.2fs @%s\n", e.name, e.root.pruneN-1+r.side, r.side, r.v, r.secs, e.root.prunePos)
+		}
+		if r.v == "unsat" {
+			f[r.side] = false
+			e.root.pruned++
+			cancel()
+			break
+		}
+		if r.v == "sat" && k == 0 {
+			// this side is feasible; the other still deserves its answer
+			continue
+		}
+	}
+	return f[0], f[1]
+}
+
+// feasible: false only when a solver refutes pc && cond (the branch is then
+// dead code under the function's preconditions and is not executed).
+func (e *Exec) feasible(s *State, cond string) bool {
+	c := e.c
+	if cond == "true" {
+		return true
+	}
+	if cond == "false" || s.pc == "false" {
+		return false
+	}
+	goal := c.B("(not (and %s %s))", s.pc, cond)
+	o := &Obl{ctx: c, at: len(c.lines), hist: s.hist, goal: goal}
+	dir := e.root.pruneDir
+	if dir == "" {
+		dir, _ = os.MkdirTemp("", "rtpverify-prune")
+		e.root.pruneDir = dir
+	}
+	e.root.pruneN++
+	file := fmt.Sprintf("%s/p%d.smt2", dir, e.root.pruneN)
+	os.WriteFile(file, []byte(strings.Replace(o.query(), zeroRowAxioms, zeroRowConst, 1)), 0o644)
+	if os.Getenv("VERIF_DEBUG") == "" {
+		defer os.Remove(file)
+	}
+	pto := 2
+	if x, err := strconv.Atoi(os.Getenv("VERIF_PRUNE_TO")); err == nil && x > 0 {
+		pto = x
+	}
+	v, _, secs := runSolver("z3-new", file, pto, 0)
+	if os.Getenv("VERIF_DEBUG") != "" {
+		fmt.Fprintf(os.Stderr, "prune %s %s: %s %.2fs\n", e.name, file, v, secs)
+	}
+	if v == "unsat" {
+		e.root.pruned++
+		return false
+	}
+	return true
 }
